@@ -1,8 +1,9 @@
 // C08 harness: setting lists through the REAL public constructors of c2/cfg (Host, Sleep,
 // WrapXOR, ConnectWC2 ...), Pack / AddGroup, then the real Validate / Build / Groups / Group /
 // MarshalBinary; the built profile is projected through the shim (VerifDump) and compared
-//   (a) Go side, with what was supplied (the oracle: C08 evaluated on the implementation),
-//   (b) Coq side, with the Gallina model (enc / pack_groups / build / interp_groups ...).
+//
+//	(a) Go side, with what was supplied (the oracle: C08 evaluated on the implementation),
+//	(b) Coq side, with the Gallina model (enc / pack_groups / build / interp_groups ...).
 package main
 
 import (
@@ -303,7 +304,9 @@ func Make(s Spec, e *Exp) (m Made) {
 		if len(ca) > 0 && !a(0).real() {
 			e.TLSRaw = true
 		}
-		m.S = cfg.ConnectTLSExCA(uint16(n(0)), ca)
+		ca2 := dup(ca)
+		m.S = cfg.ConnectTLSExCA(uint16(n(0)), ca2)
+		scribble(ca2)
 	case "TLSCerts":
 		p, k := a(0).Bytes(), a(1).Bytes()
 		m.Coq = "STLSCerts " + vh.Z(n(0)) + " " + a(0).Coq() + " " + a(1).Coq()
@@ -315,7 +318,9 @@ func Make(s Spec, e *Exp) (m Made) {
 		if len(p) == 0 && len(k) == 0 {
 			e.Domain = false // documented: empty PEM blocks render an error on build
 		}
-		m.S = cfg.ConnectTLSCerts(uint16(n(0)), p, k)
+		p2, k2 := dup(p), dup(k)
+		m.S = cfg.ConnectTLSCerts(uint16(n(0)), p2, k2)
+		scribble(p2, k2)
 	case "MuTLS":
 		ca, p, k := a(0).Bytes(), a(1).Bytes(), a(2).Bytes()
 		m.Coq = "SMuTLS " + vh.Z(n(0)) + " " + a(0).Coq() + " " + a(1).Coq() + " " + a(2).Coq()
@@ -331,7 +336,9 @@ func Make(s Spec, e *Exp) (m Made) {
 		if len(ca) == 0 && len(p) == 0 && len(k) == 0 {
 			e.Domain = false
 		}
-		m.S = cfg.ConnectMuTLS(uint16(n(0)), ca, p, k)
+		ca2, p2, k2 := dup(ca), dup(p), dup(k)
+		m.S = cfg.ConnectMuTLS(uint16(n(0)), ca2, p2, k2)
+		scribble(ca2, p2, k2)
 	case "XOR":
 		k := a(0).Bytes()
 		m.Coq = "SXOR " + a(0).Coq()
@@ -339,7 +346,9 @@ func Make(s Spec, e *Exp) (m Made) {
 		if len(k) == 0 {
 			e.Domain = false
 		}
-		m.S = cfg.WrapXOR(k)
+		k2 := dup(k)
+		m.S = cfg.WrapXOR(k2)
+		scribble(k2)
 	case "CBK":
 		m.Coq = fmt.Sprintf("SCBK 128 %d %d %d %d", n(0), n(1), n(2), n(3))
 		e.P.Wraps = append(e.P.Wraps, cfg.VItem{Kind: 6, Nums: []int64{n(0), n(1), n(2), n(3), 128}})
@@ -350,7 +359,9 @@ func Make(s Spec, e *Exp) (m Made) {
 		m.S = cfg.WrapCBKSize(byte(n(0)), byte(n(1)), byte(n(2)), byte(n(3)), byte(n(4)))
 	case "AES":
 		k, iv := a(0).Bytes(), a(1).Bytes()
-		m.S = cfg.WrapAES(k, iv)
+		k2, iv2 := dup(k), dup(iv)
+		m.S = cfg.WrapAES(k2, iv2)
+		scribble(k2, iv2)
 		ivc := a(1).Coq()
 		if len(k) > 0 && len(iv) == 0 {
 			// the constructor generated the IV: read it back from the setting's bytes
@@ -395,6 +406,17 @@ func Make(s Spec, e *Exp) (m Made) {
 		panic("unknown constructor " + s.Ctor)
 	}
 	return m
+}
+
+// the constructors document a copy of their byte-slice arguments: the caller's slices are overwritten right after
+// the call, long before anything is packed or built
+func dup(b []byte) []byte { return append([]byte(nil), b...) }
+func scribble(bs ...[]byte) {
+	for _, b := range bs {
+		for i := range b {
+			b[i] ^= 0xA5
+		}
+	}
 }
 
 func bitOf(b byte) cfg.Setting {
@@ -490,13 +512,21 @@ func digRes(o cfgx.Outcome, b []byte) string {
 	return "Panic"
 }
 
-func run(cs Case, class string) {
+func run(cs Case, class string) { runWith(cs, class, nil, nil) }
+
+// runWith: given (optional) is a Config that was produced by some OTHER history of Pack / Add / AddGroup calls
+// (possibly sharing Setting values with other live Configs) which by value semantics must equal the config
+// of cs; it is the one that is evaluated.  extra is merged into the JSON description.
+func runWith(cs Case, class string, given *cfg.Config, extra map[string]interface{}) {
 	var (
 		c     cfg.Config
 		exps  []Exp
 		terms []string
 		desc  = map[string]interface{}{"focus": cs.Focus, "groups": cs.Groups, "pack_first": cs.UseP}
 	)
+	for k, v := range extra {
+		desc[k] = v
+	}
 	fail := func(what, key string) { out.Fail(what, key+"-"+cs.Focus, desc) }
 	domain, tlsraw, sepInside := true, false, false
 	for gi, g := range cs.Groups {
@@ -530,6 +560,7 @@ func run(cs Case, class string) {
 		if before > 0 && len(ss) > 0 {
 			grew-- // the separator
 		}
+		_ = before
 		if e.Conns > 1 || e.Trans > 1 {
 			e.Domain = false
 		}
@@ -538,6 +569,14 @@ func run(cs Case, class string) {
 		if grew > 0 {
 			exps = append(exps, e)
 		}
+	}
+	if given != nil {
+		// value semantics: the history's config is byte for byte the config of its own settings
+		if string(*given) != string(c) {
+			fail(fmt.Sprintf("a Config built from shared Setting values differs from the bytes of its own settings (%d vs %d bytes, first difference at %d)",
+				len(*given), len(c), firstDiff(*given, c)), "config-bytes-differ")
+		}
+		c = *given
 	}
 	r := cfgx.Run(c)
 	desc["len"] = len(c)
@@ -634,6 +673,150 @@ func run(cs Case, class string) {
 	out.Add(sb.String(), class, len(c) > 0, desc)
 }
 
+func firstDiff(a, b []byte) int {
+	for i := 0; i < len(a) && i < len(b); i++ {
+		if a[i] != b[i] {
+			return i
+		}
+	}
+	if len(a) < len(b) {
+		return len(a)
+	}
+	return len(b)
+}
+
+// ---------------------------------------------------------------- aliasing histories
+
+// Item of an Add / AddGroup call: a Setting value shared between configs (index into History.Shared) or a fresh one.
+type Item struct {
+	Shared int   `json:"shared"` // -1: fresh
+	Spec   *Spec `json:"spec,omitempty"`
+}
+type Op struct {
+	Kind  string `json:"op"` // "add" | "addgroup"
+	Items []Item `json:"items"`
+}
+type HConf struct {
+	First int  `json:"first"` // Pack(shared[First]) alone
+	Ops   []Op `json:"ops"`
+}
+
+// History: Setting values constructed ONCE, several Configs started from them with a single-setting Pack and
+// extended by Add / AddGroup, the calls interleaved round-robin between the configs; all configs stay alive and
+// are evaluated only at the end.
+type History struct {
+	Shared []Spec  `json:"shared"`
+	Confs  []HConf `json:"confs"`
+}
+
+func runAlias(h History, class string) {
+	shared := make([]cfg.Setting, len(h.Shared))
+	for i, s := range h.Shared {
+		var e Exp
+		m := Make(s, &e)
+		if m.Panic != "" {
+			out.Fail("constructor "+s.Ctor+" panicked: "+m.Panic, "ctor-panic-"+s.Ctor+"-alias", h)
+			return
+		}
+		shared[i] = m.S
+	}
+	confs := make([]cfg.Config, len(h.Confs))
+	value := make([][][]Spec, len(h.Confs)) // the groups each config means
+	for i, hc := range h.Confs {
+		confs[i] = cfg.Pack(shared[hc.First])
+		value[i] = [][]Spec{{h.Shared[hc.First]}}
+	}
+	for t := 0; ; t++ {
+		any := false
+		for i, hc := range h.Confs {
+			if t >= len(hc.Ops) {
+				continue
+			}
+			any = true
+			var (
+				ss []cfg.Setting
+				sp []Spec
+			)
+			for _, it := range hc.Ops[t].Items {
+				if it.Shared >= 0 {
+					ss, sp = append(ss, shared[it.Shared]), append(sp, h.Shared[it.Shared])
+					continue
+				}
+				var e Exp
+				m := Make(*it.Spec, &e)
+				if m.Panic != "" {
+					out.Fail("constructor "+it.Spec.Ctor+" panicked: "+m.Panic, "ctor-panic-"+it.Spec.Ctor+"-alias", h)
+					return
+				}
+				ss, sp = append(ss, m.S), append(sp, *it.Spec)
+			}
+			if hc.Ops[t].Kind == "addgroup" {
+				confs[i].AddGroup(ss...)
+				value[i] = append(value[i], sp)
+			} else {
+				confs[i].Add(ss...)
+				value[i][len(value[i])-1] = append(value[i][len(value[i])-1], sp...)
+			}
+		}
+		if !any {
+			break
+		}
+	}
+	for i := range confs {
+		runWith(Case{Focus: "alias", Groups: value[i], UseP: true}, class, &confs[i], map[string]interface{}{"history": h, "config": i})
+	}
+}
+
+func aliasHistory(rng *vh.Rand) History {
+	var h History
+	h.Shared = append(h.Shared, SB("Host", nil, pat(1+rng.Intn(40), 'a'+rng.Intn(20), 1)))
+	switch rng.Intn(6) {
+	case 0:
+		h.Shared = append(h.Shared, SB("XOR", nil, pat(1+rng.Intn(30), rng.Intn(256), 3)))
+	case 1:
+		h.Shared = append(h.Shared, SB("DNS", nil, pat(3+rng.Intn(10), 'd', 1), lit("x.y")))
+	case 2:
+		h.Shared = append(h.Shared, S("Sleep", int64(1+rng.Intn(1e9))))
+	case 3:
+		h.Shared = append(h.Shared, SB("WC2", nil, pat(rng.Intn(12), 'u', 1), lit("h.example"), lit("")))
+	case 4:
+		h.Shared = append(h.Shared, SB("TLSExCA", []int64{2}, Arg{K: "cert"}))
+	default:
+		h.Shared = append(h.Shared, SB("Host", nil, pat(1+rng.Intn(300), 'b', 1)))
+	}
+	fresh := func(s Spec) Item { return Item{Shared: -1, Spec: &s} }
+	conns := []int64{0xC0, 0xC2, 0xC3, 0xC4}
+	for i, n := 0, 2+rng.Intn(2); i < n; i++ {
+		hc := HConf{First: 0}
+		if rng.Intn(4) == 0 {
+			hc.First = 1
+		}
+		sh := h.Shared[hc.First].Ctor
+		first := []Item{fresh(S("Jitter", int64(10+30*i))), fresh(S("Bit", int64(0xD0+(i+rng.Intn(2))%4)))}
+		if sh != "WC2" && sh != "TLSExCA" {
+			first = append([]Item{fresh(S("Bit", conns[(i+rng.Intn(2))%4]))}, first...)
+		}
+		if sh != "Host" && rng.Bool() {
+			first = append(first, Item{Shared: 0})
+		}
+		hc.Ops = append(hc.Ops, Op{Kind: "add", Items: first})
+		if rng.Bool() {
+			g := []Item{{Shared: 0}, fresh(S("Bit", conns[rng.Intn(4)])), fresh(S("Weight", int64(1+rng.Intn(100))))}
+			if rng.Bool() {
+				g = append(g, fresh(S("Bit", []int64{0xAA, 0xAB, 0xAC}[rng.Intn(3)])))
+			}
+			hc.Ops = append(hc.Ops, Op{Kind: "addgroup", Items: g})
+			if rng.Bool() {
+				hc.Ops = append(hc.Ops, Op{Kind: "add", Items: []Item{fresh(S("Jitter", int64(rng.Intn(100)))), fresh(S("CBK", int64(i), 2, 3, 4))}})
+			}
+		} else if rng.Bool() {
+			hc.Ops = append(hc.Ops, Op{Kind: "add", Items: []Item{fresh(S("Weight", int64(1+rng.Intn(100))))}})
+		}
+		h.Confs = append(h.Confs, hc)
+	}
+	return h
+}
+
 func clipI(v []int64) []int64 {
 	if len(v) > 60 {
 		return v[:60]
@@ -701,6 +884,21 @@ func families() []family {
 		}, true, false},
 		{"dns-name", 255, func(L int) Spec { return SB("DNS", nil, lit("first.example"), pat(L, 'd', 1), lit("x.y")) }, false, true},
 		{"aes-key", 255, func(L int) Spec { return SB("AES", nil, pat(L, 3, 5), pat(16, 9, 1)) }, false, false},
+		{"aes-iv", 255, func(L int) Spec { return SB("AES", nil, pat(32, 3, 5), pat(L, 9, 1)) }, false, false},
+		{"dns-count", 257, func(L int) Spec {
+			s := Spec{Ctor: "DNS"}
+			for i := 0; i < L; i++ {
+				s.Args = append(s.Args, lit(fmt.Sprintf("n%d.io", i)))
+			}
+			return s
+		}, false, true},
+		{"wc2-hdr-count", 255, func(L int) Spec {
+			s := SB("WC2", nil, lit("/"), lit("h"), lit("a"))
+			for i := 0; i < L; i++ {
+				s.Hdrs = append(s.Hdrs, [2]Arg{lit(fmt.Sprintf("K%03d", i)), lit(fmt.Sprintf("%d", i))})
+			}
+			return s
+		}, true, false},
 	}
 }
 
@@ -850,7 +1048,10 @@ func main() {
 
 	if fl.Replay != "" {
 		var rp struct {
-			Input Case `json:"input"`
+			Input struct {
+				Case
+				History *History `json:"history"`
+			} `json:"input"`
 		}
 		raw, err := os.ReadFile(fl.Replay)
 		if err != nil {
@@ -859,7 +1060,11 @@ func main() {
 		if err := json.Unmarshal(raw, &rp); err != nil {
 			panic(err)
 		}
-		run(rp.Input, "replay")
+		if rp.Input.History != nil {
+			runAlias(*rp.Input.History, "replay")
+		} else {
+			run(rp.Input.Case, "replay")
+		}
 		out.Finish()
 		return
 	}
@@ -894,6 +1099,22 @@ func main() {
 		run(c, "regression")
 	}
 
+	// 1b. aliasing histories: Setting values shared between live Configs (single-setting Pack, then Add / AddGroup,
+	// interleaved), evaluated only after every config is complete
+	{
+		fr := func(s Spec) Item { return Item{Shared: -1, Spec: &s} }
+		runAlias(History{Shared: []Spec{SB("Host", nil, lit("127.0.0.1:8085"))}, Confs: []HConf{
+			{First: 0, Ops: []Op{{Kind: "add", Items: []Item{fr(S("Bit", 0xC0)), fr(S("Jitter", 10)), fr(S("Bit", 0xD0))}}}},
+			{First: 0, Ops: []Op{{Kind: "add", Items: []Item{fr(S("Bit", 0xC2)), fr(S("Jitter", 70)), fr(S("Bit", 0xD3))}}}},
+		}}, "regression")
+		na := 150
+		if thorough {
+			na = 4000
+		}
+		for i := 0; i < na; i++ {
+			runAlias(aliasHistory(rng), "alias-history")
+		}
+	}
 	// 2. every family x every length of the grid x prefixes that make the offset arithmetic carry
 	for _, f := range families() {
 		for _, L := range grid {
